@@ -43,5 +43,9 @@ func (t *publishQOS1Transaction) Puback(puback *pkts1.Puback) {
 		t.log.Debug("Unexpected packet in %d: %v", t.State, puback)
 		return
 	}
+	if puback.ReturnCode != pkts1.RC_ACCEPTED {
+		t.Fail(fmt.Errorf("publish rejected with code %d", puback.ReturnCode))
+		return
+	}
 	t.Success()
 }
